@@ -222,6 +222,11 @@ def _gen_pl(rng, n):
                         listed.append(new)
                         known.append(new)
                 rng.shuffle(listed)
+                # an instance that is missing from a listing may be dropped by the pool; cloud instance
+                # ids are never reused, so it is never listed (or addressed) again
+                known = [x for x in known if x in listed]
+                if not known:
+                    known = [9]      # ops on a non-existent worker are no-ops on both sides
                 ops.append("sy%d:%s" % (rng.random() < 0.3, "/".join(
                     "%d.%d.%s.%d" % (x, rng.choice([1, 1, 2]), rng.choice("nnrhd"), rng.random() < 0.5) for x in listed) or "-"))
             elif r < 0.80:
